@@ -216,7 +216,6 @@ func c01CompareStrKey(r *Result, dialect string, inputs []c01SkIn) {
 		pk             []interface{}
 		atoiOK         bool
 		atoiV          int
-		epre           []interface{}
 		eskip          bool
 	}
 	enc := func(vars []interface{}) []interface{} {
@@ -276,14 +275,12 @@ func c01CompareStrKey(r *Result, dialect string, inputs []c01SkIn) {
 				res = dry.Model(m).Where(in.S).Count(&n)
 			case "Where.Update":
 				res = dry.Model(m).Where(in.S).Update("name", "v")
-				ro.epre = []interface{}{[]interface{}{"s", "s:v"}}
 			case "Where.Delete":
 				res = dry.Where(in.S).Delete(m)
 			case "Not.Find":
 				res = dry.Not(in.S).Find(ms)
 			case "Where.Or.Find":
 				res = dry.Where("age > ?", 7).Or(in.S).Find(ms)
-				ro.epre = []interface{}{[]interface{}{"s", "i:7"}}
 			case "Group.Having.Find":
 				res = dry.Group("name").Having(in.S).Find(ms)
 			default: // a kept handle, two finishers: the second statement is the one observed
@@ -335,7 +332,7 @@ func c01CompareStrKey(r *Result, dialect string, inputs []c01SkIn) {
 			r.H("strkey.real-panic", c01Trunc(ro.pan, 40))
 			continue
 		}
-		oddIdent := !c2.Key && len(in.Args) == 1 && !strings.ContainsAny(strings.TrimSpace(in.S), " ?@") && strings.Trim(in.S, "abcdefghijklmnopqrstuvwxyz_") != ""
+		oddIdent := !c2.Key && len(in.Args) == 1 && !strings.ContainsAny(strings.TrimSpace(in.S), " ?@") && (in.S == "" || strings.Trim(in.S, "abcdefghijklmnopqrstuvwxyz_") != "")
 		special := strings.ContainsAny(in.S, "?@$")
 		if string(c2.Out) == `"fallthrough"` {
 			r.H("strkey.arm", "fallthrough (generic loop, not modelled)")
@@ -372,17 +369,26 @@ func c01CompareStrKey(r *Result, dialect string, inputs []c01SkIn) {
 		if ro.eskip || special {
 			continue
 		}
-		want := append([]interface{}{}, ro.epre...)
+		// Latitude: values gorm binds on its own account (LIMIT of First / Take / Last under a dialector without its own LIMIT
+		// builder, `deleted_at` of a soft delete, the Update value) are not judged here: only whether THE STRING is among the
+		// bound values (exactly once for a key string, never for a template) and placeholders = values.
+		self, count := canon([]interface{}{"s", "s:" + in.S}), 0
+		for _, v := range ro.evars {
+			if canon(v) == self {
+				count++
+			}
+		}
+		want := 0
 		if c2.Key {
-			want = append(want, []interface{}{"s", "s:" + in.S})
+			want = 1
 		}
 		r.CorrCompared++
 		r.Case("strkey-entry", dialect+in.Entry+canon(in.S)+fmt.Sprint(in.Model), c2.Key)
 		r.H("strkey-entry.entry x class", in.Entry+" x "+map[bool]string{true: "key", false: "template"}[c2.Key])
-		if canon(ro.evars) != canon(want) {
+		if count != want || len(c01PlainPlaceholders(ro.esql)) != len(ro.evars) {
 			r.Violate(Violation{Kind: "correspondence", Suite: "strkey-entry", Input: input,
 				Observed: map[string]interface{}{"sql": ro.esql, "vars": ro.evars},
-				Expected: map[string]interface{}{"vars": want, "key": c2.Key},
+				Expected: map[string]interface{}{"occurrences of the string among Vars": want, "key": c2.Key},
 				Note:     "Statement.Vars after the DryRun entry point vs the model's classification of the string (key string: bound; otherwise a template by design: no value)"})
 		}
 	}
